@@ -235,18 +235,21 @@ class Report:
             "known_findings_reported": [k["key"] for _, k in known_hit],
             "undecided": self.undecided,
         }
-        os.makedirs(os.path.join(VERIF, "evidence"), exist_ok=True)
-        with open(os.path.join(VERIF, "evidence", f"{self.pid}.json"), "w") as f:
+        # development runs against scratch trees (mutation sampling, seed sweeps) keep their output out of the committed evidence
+        evdir = os.environ.get("VERIF_EVIDENCE_DIR") or os.path.join(VERIF, "evidence")
+        os.makedirs(evdir, exist_ok=True)
+        with open(os.path.join(evdir, f"{self.pid}.json"), "w") as f:
             json.dump(ev, f, indent=1, default=str)
 
         for v, k in known_hit:
             print(f"KNOWN-FINDING: property={self.pid} {k.get('what', v.what)}")
         code = EXIT_OK
         if new_violations:
-            os.makedirs(os.path.join(VERIF, "replay"), exist_ok=True)
+            rdir = os.path.join(os.environ["VERIF_EVIDENCE_DIR"], "replay") if os.environ.get("VERIF_EVIDENCE_DIR") else os.path.join(VERIF, "replay")
+            os.makedirs(rdir, exist_ok=True)
             for v in new_violations:
                 h = hashlib.sha1(v.key.encode()).hexdigest()[:10]
-                path = os.path.join(VERIF, "replay", f"{self.pid}_{h}.json")
+                path = os.path.join(rdir, f"{self.pid}_{h}.json")
                 with open(path, "w") as f:
                     json.dump({"property": self.pid, "key": v.key, "what": v.what, "obligation": v.obligation,
                                "confirmed_native": v.confirmed_native, "replay": v.replay}, f, indent=1, default=str)
